@@ -507,6 +507,16 @@ def fam_restart(tier, outdir):
     return run_tlc_export("restart", "MC_Restart", cfg, outdir, tier, asan_stride=8)
 
 
+def fam_drainbig(tier, outdir):
+    """Drain around the size of its own read buffer (MC_DrainBig): exactly 4096, 4095, 4097 bytes, then a pause or the end."""
+    consts = {"Handles": "{1}", "MaxTime": 1, "MaxCalls": 3, "PipeCap": 8192, "MaxOut": 8193, "ExitCodes": "{3}", "TermDelay": 1}
+    if tier == "thorough":
+        consts.update({"MaxTime": 2, "MaxOut": 8194})
+    cfg = os.path.join(outdir, "MC_DrainBig.cfg")
+    write_cfg(cfg, "Spec", consts, ["TypeOK", "LifeChild", "Conservation"], export_stride=1)
+    return run_tlc_export("drainbig", "MC_DrainBig", cfg, outdir, tier, asan_stride=4)
+
+
 def fam_nest(tier, outdir):
     """Re-entrancy: a sink that drains another child before it looks at its own chunk (MC_Nest)."""
     consts = {"Handles": "{1, 2}", "MaxTime": 0, "MaxCalls": 6, "PipeCap": 4, "MaxOut": 3, "ExitCodes": "{3}", "TermDelay": 1}
@@ -1309,7 +1319,7 @@ def run_tlc_plain(name, module, cfgpath, outdir, timeout=1500, workers=8):
     return st
 
 
-FAMILIES = {"nest": fam_nest, "cxx": fam_cxx, "anyfault": fam_anyfault, "realstatus": fam_realstatus, "real": fam_real, "optprod": fam_optprod, "free": fam_free, "env2": lambda t, o: fam_launch("env2", t, o), "two": fam_two, "restart": fam_restart, "threads": fam_threads, "conc": fam_conc, "wincmd": fam_wincmd, "wrapper": fam_wrapper, "faults": fam_faults, "env": lambda t, o: fam_launch("env", t, o), "wiring": lambda t, o: fam_launch("wiring", t, o), "options": lambda t, o: fam_launch("options", t, o),
+FAMILIES = {"drainbig": fam_drainbig, "nest": fam_nest, "cxx": fam_cxx, "anyfault": fam_anyfault, "realstatus": fam_realstatus, "real": fam_real, "optprod": fam_optprod, "free": fam_free, "env2": lambda t, o: fam_launch("env2", t, o), "two": fam_two, "restart": fam_restart, "threads": fam_threads, "conc": fam_conc, "wincmd": fam_wincmd, "wrapper": fam_wrapper, "faults": fam_faults, "env": lambda t, o: fam_launch("env", t, o), "wiring": lambda t, o: fam_launch("wiring", t, o), "options": lambda t, o: fam_launch("options", t, o),
             "destroy": fam_destroy, "status": fam_status, "run": fam_run, "stop": fam_stop, "life": fam_life, "poll": fam_poll, "stream": fam_stream, "drain": fam_drain}
 
 PROPS = {
@@ -1336,7 +1346,7 @@ PROPS = {
     "C02": {"families": ["stream", "threads", "free"], "title": "stream fidelity"},
     # (thorough: the destroy scripts also run through the C++ destructor in C16's cxx family)
     "C15": {"families": ["destroy", "restart", "free"], "title": "destroy applies the stop policy"},
-    "C16": {"families": ["drain", "run", "nest", "cxx", "free"], "title": "drain and run"},
+    "C16": {"families": ["drain", "drainbig", "run", "nest", "cxx", "free"], "title": "drain and run"},
     "C17": {"families": ["stream", "wiring", "threads", "free"], "title": "nonblocking never blocks; blocking waits only for the child"},
     "C08": {"families": ["poll", "restart", "free"], "title": "deadlines and timeouts bound every wait and poll"},
     "C09": {"families": ["poll", "stream", "threads", "free"], "title": "poll reports exactly the true events"},
